@@ -8,6 +8,7 @@ import (
 	"os"
 	"os/exec"
 	"path/filepath"
+	"strings"
 	"sync"
 	"sync/atomic"
 	"syscall"
@@ -42,6 +43,8 @@ type c15Case struct {
 	Rounds  int       `json:"rounds,omitempty"`
 	// loopkill
 	DelayUs int `json:"delay_us,omitempty"`
+	// timeout: the backend's operation timeout in nanoseconds
+	TimeoutNs int64 `json:"timeout_ns,omitempty"`
 }
 
 type c15Op struct {
@@ -58,6 +61,8 @@ func c15Open(dir string, enc bool) (driver.Conn, error) {
 }
 
 var c15Dir atomic.Int64
+
+const c15Neighbour = "http://a.test/zz-neighbour#0"
 
 func c15TempDir(disk bool) string {
 	root := world.ScratchRoot()
@@ -105,6 +110,8 @@ func execC15(t *testing.T, sc *world.Scenario) (*oracle.Result, string) {
 		return execC15LoopKill(c, r)
 	case "conc":
 		return execC15Conc(c, r)
+	case "timeout":
+		return execC15Timeout(c, r)
 	}
 	return r, "unknown case kind " + c.Kind
 }
@@ -167,6 +174,7 @@ func execC15Kill(c c15Case, r *oracle.Result) (*oracle.Result, string) {
 		return r, err.Error()
 	}
 	next := world.ExpandValue(c.NewLen, c.Seed+1)
+	_ = conn.Set(c15Neighbour, []byte("neighbour"))
 	for _, k := range c.Cuts {
 		_ = conn.Delete(c.Key)
 		var prev []byte
@@ -205,11 +213,33 @@ func execC15Kill(c c15Case, r *oracle.Result) (*oracle.Result, string) {
 			r.Fail("C15", "partial-value-after-crash", k, "enc=%v prev=%d new=%d: writer killed at byte %d: %s", c.Enc, c.PrevLen, c.NewLen, k, msg)
 			return r, ""
 		}
-		// the directory stays usable: listing and a fresh Set/Get work
+		// the directory stays usable: the listing is complete (the neighbour key and, if the
+		// key holds a value, the key itself - nothing else)
 		if kl, ok := conn2.(keyLister); ok {
-			if _, err := kl.Keys(""); err != nil {
+			keys, err := kl.Keys("")
+			if err != nil {
 				r.Fail("C15", "listing-broken-after-crash", k, "Keys fails after a writer was killed at byte %d: %v", k, err)
 				return r, ""
+			}
+			want := map[string]bool{c15Neighbour: true}
+			if _, gerr := conn2.Get(c.Key); gerr == nil {
+				want[c.Key] = true
+			}
+			got := map[string]bool{}
+			for _, x := range keys {
+				got[x] = true
+			}
+			for x := range want {
+				if !got[x] {
+					r.Fail("C15", "listing-incomplete-after-crash", k, "after a writer was killed at byte %d, Keys omits the live key %q (listed: %d keys)", k, x, len(keys))
+					return r, ""
+				}
+			}
+			for x := range got {
+				if !want[x] {
+					r.Fail("C15", "listing-incomplete-after-crash", k, "after a writer was killed at byte %d, Keys lists %q which holds no value", k, x)
+					return r, ""
+				}
 			}
 		}
 	}
@@ -248,6 +278,61 @@ func execC15LoopKill(c c15Case, r *oracle.Result) (*oracle.Result, string) {
 		r.NTKeys = append(r.NTKeys, fmt.Sprintf("loopkill/%v/%d/%d", c.Enc, c.NewLen, c.DelayUs))
 	default:
 		r.Fail("C15", "partial-value-after-crash", -1, "enc=%v: after SIGKILL of a writer alternating %d- and %d-byte values, Get returned %d bytes that are neither", c.Enc, len(a), len(b), len(got))
+	}
+	return r, ""
+}
+
+// (a4) the backend's own operation timeout expires while a large value is being written: the
+// caller gets an error, the write finishes (or not) in the background - Get still never
+// returns a partial value.
+func execC15Timeout(c c15Case, r *oracle.Result) (*oracle.Result, string) {
+	dir := c15TempDir(false)
+	defer os.RemoveAll(dir)
+	plain, err := c15Open(dir, c.Enc)
+	if err != nil {
+		return r, err.Error()
+	}
+	prev := world.ExpandValue(c.PrevLen, c.Seed)
+	if err := plain.Set(c.Key, prev); err != nil {
+		return r, "setup Set failed: " + err.Error()
+	}
+	opts := []fscache.Option{fscache.WithBaseDir(dir), fscache.WithTimeout(time.Duration(c.TimeoutNs))}
+	if c.Enc {
+		opts = append(opts, fscache.WithEncryption(c14EncKey))
+	}
+	hasty, err := fscache.Open("app", opts...)
+	if err != nil {
+		return r, err.Error()
+	}
+	next := world.ExpandValue(c.NewLen, c.Seed+1)
+	serr := hasty.Set(c.Key, next)
+	r.Evals = 1
+	if serr != nil {
+		r.Label("set-timed-out")
+		r.NonTrivial = true
+		r.NTKeys = append(r.NTKeys, fmt.Sprintf("timeout/%v/%d/%d", c.Enc, c.NewLen, c.TimeoutNs))
+	} else {
+		r.Label("set-completed-in-time")
+	}
+	// judge right away and again once the abandoned writer has had time to finish
+	for round := 0; round < 2; round++ {
+		if msg := judgeGet(plain, c.Key, prev, next); msg != "" {
+			r.Fail("C15", "partial-value-after-timeout", round, "enc=%v: Set of %d bytes with operation timeout %v returned %v; %s", c.Enc, c.NewLen, time.Duration(c.TimeoutNs), serr, msg)
+			return r, ""
+		}
+		deadline := time.Now().Add(3 * time.Second)
+		for time.Now().Before(deadline) {
+			left := false
+			for _, f := range filesUnder(dir) {
+				if strings.Contains(filepath.Base(f), ".tmp-") {
+					left = true
+				}
+			}
+			if !left {
+				break
+			}
+			time.Sleep(5 * time.Millisecond)
+		}
 	}
 	return r, ""
 }
@@ -541,6 +626,23 @@ func TestC15Kill(t *testing.T) {
 						cuts = append(s, n+over-1, 1)
 					}
 					c := c15Case{Kind: "kill", Enc: enc, Key: "http://a.test/kill#0", PrevLen: prev, NewLen: n, Seed: seed*37 + uint64(n), Cuts: cuts}
+					if !yield(mkC15(c)) {
+						return
+					}
+				}
+			}
+		}
+	})
+}
+
+// TestC15Timeout enumerates operation timeouts x value sizes.
+func TestC15Timeout(t *testing.T) {
+	seed := uint64(envInt("VERIF_SEED", 1))
+	RunEnum(t, checkC15, func(yield func(*world.Scenario) bool) {
+		for _, enc := range []bool{false, true} {
+			for _, n := range []int{1 << 20, 2<<20 + 17, 5 << 20} {
+				for _, to := range []int64{1, 50_000, 300_000, 1_000_000, 3_000_000} {
+					c := c15Case{Kind: "timeout", Enc: enc, Key: "http://a.test/timeout#0", PrevLen: 1000, NewLen: n, Seed: seed*41 + uint64(n), TimeoutNs: to}
 					if !yield(mkC15(c)) {
 						return
 					}
